@@ -197,6 +197,7 @@ var mutantCatalogue = map[string][]mutant{
 		{Name: "pending write deleted outright", File: "risc/app.go", Old: "\t\tctx.PendingWriteRegisters[register]--\n\t\tif ctx.PendingWriteRegisters[register] <= 0 {\n\t\t\tdelete(ctx.PendingWriteRegisters, register)\n\t\t}\n\t}\n}\n\n// IsWriteDataHazard", New: "\t\tdelete(ctx.PendingWriteRegisters, register)\n\t}\n}\n\n// IsWriteDataHazard"},
 	},
 	"C05": {
+		{Name: "sub-line read from L1 under an L3 presence test", File: "proc/mvp8-0/cc.go", Old: "l1Addr, l1Data, exists := cc.l3.GetSubCacheLine(r.addrs, l1DCacheLineSize)", New: "l1Addr, l1Data, exists := cc.l1d.GetSubCacheLine(r.addrs, l1DCacheLineSize)"},
 		{Name: "probe answers found on a miss", File: "proc/mvp6-1/mmu.go", Old: "\t\t\tu.pendings = append(u.pendings, [2]int32{addrs[0], addrs[0] + l3CacheLineSize + 1})\n\t\t\treturn nil, false, false\n", New: "\t\t\tu.pendings = append(u.pendings, [2]int32{addrs[0], addrs[0] + l3CacheLineSize + 1})\n\t\t\treturn nil, false, true\n"},
 		{Name: "line fill one byte too long", File: "proc/mvp6-1/mmu.go", Old: "for i := 0; i < l3CacheLineSize; i++ {\n\t\tif int(addr)+i < 0", New: "for i := 0; i <= l3CacheLineSize; i++ {\n\t\tif int(addr)+i < 0"},
 		{Name: "write-back stores at index len", File: "proc/mvp6-2/mmu.go", Old: "\t\tif int(addr)+i >= len(u.ctx.Memory) {\n\t\t\treturn", New: "\t\tif int(addr)+i > len(u.ctx.Memory) {\n\t\t\treturn"},
@@ -217,6 +218,7 @@ var mutantCatalogue = map[string][]mutant{
 		{Name: "L3 dirty flag keyed by the L1 alignment", File: "proc/mvp8-0/cc.go", Old: "\tl3Addr := getL3AlignedMemoryAddress([]int32{int32(l1Addr)})\n\tcc.msi.l3WriteNotify(l3Addr)", New: "\tl3Addr := getL1AlignedMemoryAddress([]int32{int32(l1Addr)})\n\tcc.msi.l3WriteNotify(l3Addr)"},
 	},
 	"C06": {
+		{Name: "L1 insertion guarded by an L3 presence test", File: "proc/mvp8-0/cc.go", Old: "if cc.isAddressInL1([]int32{int32(addr)}) {", New: "if cc.isAddressInL3([]int32{int32(addr)}) {"},
 		{Name: "L1 evict handler evicts from L3", File: "proc/mvp8-0/cc.go", Old: "\t\t\t\t_, _ = cc.l1d.EvictCacheLine(req.alignedAddr)\n\t\t\t\tinfo.done()", New: "\t\t\t\t_, _ = cc.l3.EvictCacheLine(req.alignedAddr)\n\t\t\t\tinfo.done()"},
 		{Name: "writer admitted among readers", File: "proc/comp/semaphore.go", Old: "if s.write > 0 || s.read > 0 {", New: "if s.write > 0 {"},
 		{Name: "line lock not stored", File: "proc/mvp7-1/msi.go", Old: "\t\tsem = &comp.Sem{}\n\t\tm.pendings[alignedAddr] = sem\n", New: "\t\tsem = &comp.Sem{}\n"},
